@@ -75,6 +75,42 @@ class Ctx:
             raise Undecided("floor: rule instance count %s = %d is below the confirmed floor %d" % (name, have, minimum))
 
 
+class Relabel:
+    """Runs another property's rule function on behalf of this one: obligations whose rule id starts with a key of `mapping` are
+    recorded under the mapped id; everything else the borrowed function reports (other rules, counts, floors, notes) is dropped.
+    Used where one obligation is a necessary condition of two properties."""
+    def __init__(self, ctx, mapping):
+        self._ctx = ctx
+        self._map = mapping
+        self.tier = ctx.tier
+        self.repo = ctx.repo
+        self.prop = ctx.prop
+
+    def facts(self, config="native"):
+        return self._ctx.facts(config)
+
+    def ob(self, rule, key, where, ok, how="", detail="", nontrivial=True):
+        for frm, to in self._map.items():
+            pred = None
+            if isinstance(to, tuple):
+                to, pred = to
+            if rule.startswith(frm) and (pred is None or pred(key)):
+                return self._ctx.ob(to + rule[len(frm):], key, where, ok, how, detail, nontrivial)
+        return bool(ok)
+
+    def exempt(self, *a, **k):
+        pass
+
+    def note(self, *a, **k):
+        pass
+
+    def count(self, *a, **k):
+        pass
+
+    def floor(self, *a, **k):
+        pass
+
+
 def load_known():
     if not os.path.exists(KNOWN_FINDINGS):
         return {"known": [], "fixed": []}
@@ -92,6 +128,8 @@ def run_check(prop, fn, tier, meta, repo=None, preloaded=None, quiet=False):
     undecided = None
     try:
         fn(ctx)
+        import widths
+        widths.check(ctx, prop)
         if tier == "thorough" and (repo is None or os.path.abspath(repo) == os.path.abspath(REPO)) and not os.environ.get("VERIF_NO_SELFTEST"):
             selftest(ctx, prop)
     except Undecided as u:
